@@ -1,4 +1,5 @@
 """Shared glue for the PyVC-U contracts (loop invariants over the AST of the real kernels, all sizes)."""
+
 from __future__ import annotations
 
 import z3
@@ -7,6 +8,11 @@ from pyvc import wp
 from pyvc.sym import UF
 
 I = z3.IntSort()
+
+# assumptions of the generator, added to the `trusted` list of every contract that uses it
+WP_ASSUMPTIONS = (
+    "PyVC-U: distinct array parameters of a function do not alias each other; integers are unbounded and floats are reals; products of symbolic reals are uninterpreted (sound: fewer facts)",
+)
 
 
 def ints(*names):
